@@ -242,7 +242,7 @@ Definition fpoint_set (s : source) (rmin rmax : N) : fres :=
     match text_number NF32 (or_f1 o) t with
     | CErr _ => FErr BadType
     | CZero => FZero
-    | CKeep => FErr MissingData                (* white space only: the text ends, no second element *)
+    | CKeep => FErr BadType                    (* white space only: the string iterator has no element *)
     | CVal vx =>
       let x := nv_bits vx in
       let e1 := Z.to_nat (fo_end (or_f1 o)) in
@@ -251,8 +251,7 @@ Definition fpoint_set (s : source) (rmin rmax : N) : fres :=
            | [] => FErr BadType
            | t2 => match text_number NF32 (or_f2 o) t2 with
                    | CErr _ => FErr BadType
-                   | CZero | CKeep => check x x      (* white space behind the separator: mpt_iterator_consume copies its
-                                                        unassigned buffer, which holds x (stack image); not generated *)
+                   | CZero | CKeep => FErr BadType        (* white space behind the separator: no element *)
                    | CVal vy => check x (nv_bits vy)
                    end
            end
